@@ -28,7 +28,7 @@ def registry():
             obj = getattr(mod, name)
             if isinstance(obj, type):
                 reg[name] = obj
-    for name in ("TableCost", "TableSaving", "TableChangeScore", "TableLocalAnomalyScore", "L1Cost", "TrendPenalisedL2Cost", "MemoisingAbsCost", "WeightedCUSUM",
+    for name in ("TableCost", "TableSaving", "TableChangeScore", "TableLocalAnomalyScore", "SupervisedChangeDetector", "L1Cost", "TrendPenalisedL2Cost", "MemoisingAbsCost", "WeightedCUSUM",
                  "FixedChangeDetector", "IndexLabelChangeDetector", "FunctionChangeScore", "FunctionLocalAnomalyScore",
                  "SecondMomentChangeScore", "SecondMomentLocalScore", "DirectLocalMeanScore", "ProfileChangeScore", "WelchChangeScore", "ModalL1Cost", "SeriesScaledLocalScore"):
         reg[name] = getattr(U, name)
